@@ -1029,7 +1029,64 @@ func (f *Frame) loopEnvFor(li *loopInfo, over map[*ssa.Phi]*Val) *loopEnv {
 			}
 		}
 	}
+	if env.iter == nil {
+		// an indexed loop "for i := 0; ...; i++" written instead of a range loop: its canonical
+		// induction variable (the only header phi that starts at the constant 0 outside the loop
+		// and is incremented by the constant 1 inside it) is the iteration count
+		var cand *ssa.Phi
+		n := 0
+		for _, in := range li.header.Instrs {
+			phi, ok := in.(*ssa.Phi)
+			if !ok {
+				break
+			}
+			if isCanonicalInduction(phi, li) {
+				cand = phi
+				n++
+			}
+		}
+		if n == 1 {
+			v := f.vals[cand]
+			if over != nil {
+				v = over[cand]
+			}
+			if v != nil && v.X != nil {
+				env.iter = v.X
+			}
+		}
+	}
 	return env
+}
+
+func isCanonicalInduction(phi *ssa.Phi, li *loopInfo) bool {
+	if bt, ok := phi.Type().Underlying().(*types.Basic); !ok || bt.Info()&types.IsInteger == 0 {
+		return false
+	}
+	if len(phi.Edges) != 2 {
+		return false
+	}
+	outside, inside := 0, 0
+	for i, ed := range phi.Edges {
+		pred := phi.Block().Preds[i]
+		if li.blocks[pred.Index] {
+			bo, ok := ed.(*ssa.BinOp)
+			if !ok || bo.Op != token.ADD || bo.X != ssa.Value(phi) {
+				return false
+			}
+			c, ok := bo.Y.(*ssa.Const)
+			if !ok || c.Value == nil || c.Value.ExactString() != "1" {
+				return false
+			}
+			inside++
+		} else {
+			c, ok := ed.(*ssa.Const)
+			if !ok || c.Value == nil || c.Value.ExactString() != "0" {
+				return false
+			}
+			outside++
+		}
+	}
+	return outside == 1 && inside == 1
 }
 
 
